@@ -7,6 +7,7 @@ def run(ctx: Ctx) -> int:
     jobs = [Job(H, "h_base_table", timeout=60), Job(H, "h_existential", timeout=ctx.pick(60, 200))]
     for k in range(12):
         jobs.append(Job(H, "h_layer1", timeout=ctx.pick(90, 300), name=f"layer1[k={k}]", env={"VERIF_C14_K1": k}))
+        jobs.append(Job(H, "h_sequence", timeout=ctx.pick(90, 300), name=f"sequence[k1={k}]", env={"VERIF_C14_K1": k}))
         jobs.append(Job(H, "h_layer2", timeout=ctx.pick(120, 900), name=f"layer2[k1={k}]", env={"VERIF_C14_K1": k}))
     ctx.functions_encoded = [
         "tys/ty.py: TypeBase.{linear,affine,hugr_bound}, ParametrizedTypeBase.{copyable,droppable,hugr_bound}, TupleType, OpaqueType, StructType.{fields,intrinsically_*}, FunctionType, NumericType, NoneType, BoundTypeVar, ExistentialTypeVar",
@@ -14,7 +15,8 @@ def run(ctx: Ctx) -> int:
         "definition/struct.py: CheckedStructDef, StructField; tys/subst.py: Instantiator (struct field instantiation)",
         "compiler/core.py: requires_drop; std/quantum: qubit type def"]
     ctx.bounds = {"constructors": 12, "leaves": "2 type variables with symbolic (copyable, droppable) bounds (all 4 combinations each), int, qubit",
-                  "nesting": "1 layer (all leaf choices) and 2 layers"}
+                  "nesting": "1 layer (all leaf choices) and 2 layers",
+                  "sequence": "two classifications in one session over the same parameter index with independent bounds (any 2 of the 12 constructors)"}
     ctx.outside_claim = ["that insert_drops wires the drop op into the HUGR (back end)", "user-defined opaque types other than qubit"]
     ctx.assumptions = ["one constructor layer over children with arbitrary flags is the induction step for arbitrary nesting"]
     ctx.crosshair(jobs)
